@@ -15,7 +15,11 @@ NEED = ('end:accept', 'end:accept-halt', 'end:accept-pv', 'end:block', 'end:none
         'paged', 'frames-with-readings', 'snap:same', 'snap:needed', 'snap:stale',
         # interrupts accepted at a frame boundary while SP sits at a ROM/RAM or 64K edge (pushed PC half in ROM, half in RAM)
         'int-sp-edge', 'int-sp-split', 'int-sp:4001', 'int-sp:0001', 'int-sp-split:im1', 'int-sp-split:im2', 'int-sp-split:48K',
-        'int-sp-split:128K')
+        'int-sp-split:128K',
+        # port reads at edge port numbers executed by the contended playbacks (MEMPTR = port + 1 carries into the high byte only
+        # for n = FF), and BIT k,(HL) right after them (MEMPTR's high byte shows in F), also in SZX recordings (MEMPTR field compared)
+        'cmio:in-a:FF', 'cmio:bit-after-in', 'cmio:bit-after-in-a-FF', 'cmio:bit-after-in-a-FF-carry-in-f',
+        'cmio-szx:in-a:FF')
 
 
 def judge_traces(rep, traces, wd):
@@ -98,6 +102,7 @@ def run(tier):
     rep.drift = len(noclaim)
     rep.extra['recorder'] = dict(stats)
     rep.extra['interrupts_accepted_with_sp_at_edge'] = {k: v for k, v in sorted(stats.items()) if k.startswith('int-sp')}
+    rep.extra['port_edges_under_cmio_playback'] = {k: v for k, v in sorted(stats.items()) if k.startswith('cmio')}
     rep.extra['claimed_cases'] = dict(claimed)
     rep.extra['no_claim_flags_do_not_match_convention'] = len(noclaim)
     rep.extra['claimed_plays_by_flags'] = {str(k): v for k, v in sorted(flags_claimed.items())}
@@ -139,7 +144,8 @@ def run(tier):
     rep.rule = ('generated programs (IN A,(n)/IN r,(C)/INI.. with values steering branches, HALT, EI/DI, IM 0/1/2 with the ROM or a RAM '
                 'handler, LD A,I/R, prefix chains, 128K paging, LD SP,nn with nn at the ROM/RAM border or the 64K wrap (4001 4000 4002 0001 0000 '
                 '0002 FFFF 3FFF) then EI and a wait so that the frame interrupt pushes PC half into ROM, handlers that return or reset SP '
-                'and restart, byte soup) recorded by the harness recorder on the real C simulators '
+                'and restart, IN A,(n) / OUT (n),A / IN r,(C) / INI / IND / OUT (C),r at port numbers FF FE 00 7F 80 1F with A or B in '
+                '00 07 7F FF followed by BIT k,(HL) / BIT k,(IX+d) and a store of or a branch on F (MEMPTR made visible), byte soup) recorded by the harness recorder on the real C simulators '
                 '(plain and contended) into 1-3 blocks of frames of 1..900 fetches ({z80 v1/v2/v3, szx} snapshots, compressed or not, '
                 'repeated-frame markers, empty frames, conventions 0..3); played by rzxplay.main under {C,--python} x {plain,--cmio} x '
                 'flags 0..7, stopped at every frame, written, resumed; distinct_nontrivial = distinct (machine/format/convention/input '
